@@ -3,6 +3,7 @@
 __all__ = ['CSSSerializer', 'Preferences']
 
 import codecs
+import re
 
 import cssutils
 from cssutils.helper import normalize
@@ -185,6 +186,9 @@ class Preferences:
         self.validOnly = False
 
 
+_endswithescape = re.compile(r'(?<!\\)(?:\\\\)*\\(?:[0-9a-fA-F]{1,6})? $').search
+
+
 class Out:
     """A simple class which makes appended items available as a combined string"""
 
@@ -267,7 +271,9 @@ class Out:
             if indent or (val == '}' and self.ser.prefs.indentClosingBrace):
                 self.out.append(self.ser._indentblock(val, self.ser._level + 1))
             else:
-                if val.endswith(' '):
+                if val.endswith(' ') and not _endswithescape(val):
+                    # (a name ending in an escaped space or in the space
+                    # terminating a hex escape keeps the S in front of it)
                     self._remove_last_if_S()
                 self.out.append(val)
 
